@@ -693,6 +693,10 @@ func escapesGoroutine(v ssa.Value, depth int) string {
 										return how
 									}
 								}
+								// the cell itself is captured (by reference) by a closure
+								if _, ok := r2.(*ssa.MakeClosure); ok {
+									return "kept by a closure (retry / callback)"
+								}
 							}
 						}
 					}
